@@ -1139,6 +1139,30 @@ fn gen_keepalive(repo: &Path, g: &mut Gen) -> R<()> {
     let default_false = rec.contains("_ => false");
     let bind_code = bind.contains("code == REPLIER_ALREADY_BOUND");
     if !default_false { return shape(h_rel, "is_recoverable_error: the catch-all arm is not `_ => false`"); }
+    // the answer to a (re-)registration: a read error of the stream is handed on as it is (so that a connection lost at
+    // that moment is classified like any other loss), it is not turned into an `OpenStream` refusal
+    let sm_rel = "client/src/streams/mod.rs";
+    let sm = Src::load(repo, sm_rel)?;
+    let hr = { let fns = all_fns(&sm.ast); fns.get("handle_reply").cloned().ok_or_else(|| Shape(format!("{sm_rel}: fn handle_reply not found")))? };
+    let read_err_passed = {
+        struct V { found: Option<bool> }
+        impl<'ast> syn::visit::Visit<'ast> for V {
+            fn visit_arm(&mut self, a: &'ast syn::Arm) {
+                let p = &a.pat;
+                let pt = quote::quote!(#p).to_string();
+                if let Some(rest) = pt.strip_prefix("Some (Err (") {
+                    let var = rest.trim_end_matches(')').trim().to_string();
+                    let b = &a.body;
+                    let bt = quote::quote!(#b).to_string();
+                    self.found = Some(bt == format!("Err ({var})") || bt == format!("{{ Err ({var}) }}") || bt == format!("return Err ({var})"));
+                }
+                syn::visit::visit_arm(self, a);
+            }
+        }
+        let mut v = V { found: None };
+        syn::visit::Visit::visit_block(&mut v, &hr);
+        v.found.ok_or_else(|| Shape(format!("{sm_rel}: handle_reply: no `Some(Err(_))` arm")))?
+    };
     let mut s = String::new();
     let _ = writeln!(s, "/-- {rr_rel}: does every outage (a stream that was serving and got cut off) get a fresh backoff iterator in `listen()` / `request()`? -/\ndef replierBudgetPerOutage : Bool := {listen_per}\ndef requestorBudgetPerOutage : Bool := {request_per}");
     let _ = writeln!(s, "/-- {rr_rel}: does a refused registration (another replier is bound) count against the current budget in `listen()`? -/\ndef replierRefusalCountsAsAttempt : Bool := {refusal_counts}");
@@ -1147,7 +1171,8 @@ fn gen_keepalive(repo: &Path, g: &mut Gen) -> R<()> {
     let _ = writeln!(s, "/-- {h_rel}: `is_recoverable_error` -/\ndef ioConnectionResetRecoverable : Bool := {}\ndef ioNotConnectedRecoverable : Bool := {}\ndef quicConnectionErrorRecoverable : Bool := {quic_conn}\ndef replierAlreadyBoundRecoverable : Bool := {}",
         io_arm && io_reset, io_arm && io_notconn, open_arm && bind_code);
     let _ = writeln!(s, "/-- {ps_rel}: where the wrapper fires the task's waker itself (`cx.waker().wake_by_ref()`): when the budget is exhausted, after arming the next attempt, after a successful reconnection -/\ndef wakesOnExhaustion : Bool := {wake_exhaust}\ndef wakesAfterArmingAttempt : Bool := {wake_arm}\ndef wakesOnReconnect : Bool := {wake_ok}\n/-- {ps_rel}: `poll_close` polls the reconnection attempt while the wrapper is Disconnected -/\ndef closeKeepsReconnecting : Bool := {close_polls}");
-    g.emit("KeepAlive", &[rr_rel, ps_rel, h_rel, rq_rel], &s);
+    let _ = writeln!(s, "/-- {sm_rel}: `handle_reply` hands a read error of the stream on unchanged (a connection lost while a registration awaits its answer is an ordinary, recoverable loss) -/\ndef registrationReadErrorPassedOn : Bool := {read_err_passed}");
+    g.emit("KeepAlive", &[rr_rel, ps_rel, h_rel, rq_rel, sm_rel], &s);
     Ok(())
 }
 
